@@ -132,7 +132,9 @@ func c15Do(h http.Handler, method, path string, body any) (int, string) {
 // c15PS issues GET /api/ps; status 0 = the request did not return (PsHandler does not watch the
 // request context, so a lock that is never released wedges it for good).
 func c15PS(h http.Handler) (int, string) {
-	return c15Do(h, "GET", "/api/ps", nil)
+	// PsHandler does no I/O: it answers in microseconds unless a lock it needs is never released.  The limit is
+	// wall-clock, so it is generous (8 s + 1 s grace): under -race on a loaded host a healthy ps can take seconds.
+	return c15DoCtx(context.Background(), 8*time.Second, h, "GET", "/api/ps", nil)
 }
 
 // c15DoCtx serves one request on its own goroutine.  Like net/http, the request context ends when
@@ -794,7 +796,7 @@ func c15Round(t *testing.T, out *zzverif.Out, root *zzverif.Rng, round int, per 
 	// for ever for workers stuck behind it
 	out.Count("rounds")
 	finished := 0
-	deadline := time.After(per + 5*time.Second)
+	deadline := time.After(per + 12*time.Second)
 wait:
 	for finished < workers {
 		select {
